@@ -42,6 +42,14 @@ def piece_bytes(x, rng):
         item = cb.frame({"Get": {"path": "f"}})[4:]
         filler = bytes(40) if x == "get_padded" else cb.frame({"Delete": {"path": "f", "expected": H("c1")}})
         return struct.pack(">I", len(item) + len(filler)) + item + filler, False
+    if x == "get_missing_maxframe":
+        # the frame's payload is exactly MAXF bytes long, or up to 40 bytes shorter (whatever a reply adds to the path it names
+        # must not push the REPLY over the bound)
+        want = MAXF - rng.choice([0, 8, 24, 40])
+        n = want - 32
+        while len(cb.enc({"Get": {"path": "m" * n}})) < want:
+            n += 1
+        return cb.frame({"Get": {"path": "m" * n}}), False
     if x == "get_badpath":
         # any refused path is the same piece to the model: short, long, long runs of multi-byte characters at both alignments
         return cb.frame({"Get": {"path": rng.choice(["../x", "../" + "\u00e9" * 200, "/a" + "\u00e9" * 120, "a/../../" + "\u30ca" * 70,
